@@ -5,6 +5,7 @@ mod gen;
 mod interval_ops;
 mod stat_ops;
 mod prop_ops;
+mod rel_ops;
 mod conf_ops;
 mod prog_ops;
 
@@ -77,8 +78,11 @@ fn gen(prop: &str, tier: &str, seed: u64) -> Vec<String> {
         "C03" => prop_ops::c03(&mut out, &mut rng, tier),
         "C12" => prop_ops::c12(&mut out, &mut rng, tier),
         "C18" => conf_ops::c18(&mut out, &mut rng, tier),
+        "C16" => rel_ops::c16(&mut out, &mut rng, tier),
+        "C10" => rel_ops::c10(&mut out, &mut rng, tier),
         "C09" => prog_ops::c09(&mut out, &mut rng, tier),
         "C08" => prog_ops::c08(&mut out, &mut rng, tier),
+        "C11" => stat_ops::c11(&mut out, &mut rng, tier),
         "C01" => stat_ops::c01(&mut out, &mut rng, tier),
         "C05" => stat_ops::c05(&mut out, &mut rng, tier),
         "C04" => stat_ops::c04(&mut out, &mut rng, tier),
